@@ -16,7 +16,8 @@ def run(chk):
                        '(prefix invariant); max is symmetric/associative, so the result does not depend on member order; utils.deduplicate keeps exactly one '
                        'entry per distinct (id, modified-or-created) (loop invariant over a key set); apply_common_filters (C12) carries the filter '
                        'hand-down.  B: partitions of a 6-version population (overlapping copies, different versions) over 1-3 MemorySources in every '
-                       'attachment order; get / all_versions / query with composite-attached filters; relationship graphs of 4 nodes with all '
+                       'attachment order; get / all_versions / query with composite-attached filters; attached filters of composite and members unchanged by '
+                       'answering, union restored after detaching; relationship graphs of 4 nodes with all '
                        'navigation options (type filter, source-only, target-only, extra filters) through a source, a store, a composite and an '
                        'Environment, against a scan of the stored objects; creator_of.')
     for c in (K.composite_get_contract(), K.deduplicate_contract(), KF.acf_contract()):
@@ -65,6 +66,24 @@ def run(chk):
         ga = sorted((key(o) for o in comp.all_versions('identity--' + D.U(1))), key=repr)
         wa = sorted((k for k, o in union.items() if k[0] == 'identity--' + D.U(1) and o['name'] != 'a2'), key=repr)
         if ga != wa: return ('composite#attached filters apply to every member', f'members {sig}: filtered all_versions = {ga}, scan {wa}', {})
+        # frame: answering never changes the filters attached to the composite or to a member (own member filters, query with and without an explicit
+        # query, then the composite's filter detached again: the composite is the plain union under the members' own filters once more)
+        comp2 = CompositeDataSource(); srcs = [MemorySource(stix_data=list(m)) for m in members]
+        for sc in srcs: comp2.add_data_source(sc)
+        own = Filter('type', '!=', 'no-such-type'); srcs[0].filters.add(own)          # matches everything
+        cf = Filter('name', '!=', 'a2'); comp2.filters.add(cf)
+        before = [list(sc.filters) for sc in srcs]
+        for q in (None, [Filter('type', '=', 'identity')]):
+            comp2.query(q) if q is not None else comp2.query()
+            comp2.all_versions('identity--' + D.U(1)); comp2.get('identity--' + D.U(1)); comp2.relationships('identity--' + D.U(1))
+            if [list(sc.filters) for sc in srcs] != before or list(comp2.filters) != [cf]:
+                return ('frame#answering leaves attached filters alone', f'members {sig}: after composite queries the members hold filters {[list(sc.filters) for sc in srcs]} (before: {before}), composite {list(comp2.filters)}', {})
+        comp2.filters.remove(cf)
+        got_u = sorted((key(o) for o in comp2.query()), key=repr); want_u = sorted(union, key=repr)
+        if got_u != want_u: return ('composite#union again after its filter is detached', f'members {sig}: query() after detaching the composite filter = {got_u}, scan {want_u}', {})
+        for sc, m in zip(srcs, members):
+            if sorted((key(o) for o in sc.query()), key=repr) != sorted({key(o) for o in m}, key=repr):
+                return ('frame#member answers alone as before', f'members {sig}: a member queried on its own after composite use no longer returns its content', {})
     chk.bounded('federation: partitions x attachment orders', list(partitions()), check_fed, classify=lambda c: c[0],
                 bound='6 versions over 1-3 members, overlapping copies, every attachment order; assignment space sampled (' + ('400' if chk.tier == 'thorough' else '60') + ' per member count)')
 
